@@ -95,7 +95,9 @@ class C07(vlib.Check):
                    "bits": rng.choice([2 ** 31, 4096, 1024, 64, 8, 1])}
         for _ in range(25 if self.tier == "quick" else 400):
             kind = rng.choice(["bit", "count", "float"])
-            bits = rng.choice([64, 1024, 2 ** 32])
+            # lengths that are a power of two times an odd factor are as legitimate as powers of two: the folded length
+            # only has to be the current length divided by a power of two (1000 -> 250, 1536 -> 384, 96 -> 24)
+            bits = rng.choice([64, 1024, 2 ** 32, 96, 1000, 1536])
             fps = []
             for _ in range(rng.randint(1, 4)):
                 f = gen_fp(rng, kind, bits, level=5, maxn=10)
@@ -104,7 +106,7 @@ class C07(vlib.Check):
                 fps.append(f)
             b = bits
             for _ in range(rng.randint(0, 6)):
-                if b > 1:
+                if b > 1 and b % 2 == 0:
                     b //= 2
             self.count("db-route")
             yield {"t": "dbfold", "kind": kind, "fps": fps, "bits": b}
